@@ -100,6 +100,12 @@ class RngModel(Ext):
         if name == "random":
             def random(I_, a, k):
                 size = a[0] if a else k.get("size")
+                out = k.get("out")
+                if isinstance(out, Tensor):
+                    xs = [self._u(I_, 0, 1, "u") for _ in range(out.size)]
+                    out.data[:] = xs                       # fills the caller's buffer (every alias sees the new draw)
+                    self.draws.append(("random", (out.shape,), out))
+                    return out
                 if size is None:
                     x = self._u(I_, 0, 1, "u")
                     self.draws.append(("random", (), x))
